@@ -3,6 +3,7 @@
 //! implementation in /repo (built from the current working tree with --cfg simplesl_verif).
 mod api;
 mod arith;
+mod codes;
 mod conc;
 mod eqv;
 mod imports;
@@ -50,6 +51,7 @@ fn main() {
             "statics" => statics::run(&args[2..]),
             "interp" => out(&interp::run_file(&args[2..])),
             "imports" => out(&imports::run(&args[2..])),
+            "codes" => out(&codes::run(&args[2..])),
             "det" => {
                 lang::det(&args[2..]);
             }
